@@ -36,7 +36,8 @@ class Ctx:
     2e + 1 the midpoint of the flank from extremum e to extremum e + 1."""
 
     def __init__(self, P, first, mode):
-        E, env = P.E, P.env
+        E = P.E
+        env = E.entry_env          # the arguments (never re-bound by the function); hooks may fire inside an inlined helper
         self.E, self.first, self.mode = E, first, mode
         pk, tr = env['peaks'], env['troughs']
         self.A, self.B = (pk, tr) if first == 'peak' else (tr, pk)
